@@ -182,3 +182,166 @@ def run(n=300, seed=1, nbody=24, workers=8, verbose=True):
 if __name__ == "__main__":
     r = run(n=int(sys.argv[1]) if len(sys.argv) > 1 else 300, seed=int(sys.argv[2]) if len(sys.argv) > 2 else 1)
     sys.exit(0 if r is None or not r["mismatches"] else 1)
+
+
+# ---------------------------------------------------------------------------------------------
+# targeted cross-checks for what the random generator does not reach
+# ---------------------------------------------------------------------------------------------
+
+def _lookup_arr(map_no_or_fd):
+    """r7 = pointer to element 0 of the array map, or exit 1"""
+    return b"".join([
+        ins(0xbf, 6, 1), ins(0x62, 10, 0, -4, 0),
+        ins(0x18, 1, 1, 0, map_no_or_fd), ins(0, 0, 0, 0, 0),
+        ins(0xbf, 2, 10), ins(0x07, 2, 0, 0, -4), ins(0x85, 0, 0, 0, 1),
+        ins(0x55, 0, 0, 2, 0), ins(0xb7, 0, 0, 0, 1), ins(0x95), ins(0xbf, 7, 0)])
+
+
+def packet_program(arr_fd, need):
+    """guarded packet reads of 1/2/4/8 bytes into the map, a packet write, PASS; short packet: DROP"""
+    p = _lookup_arr(arr_fd)
+    p += ins(0x61, 2, 6, 0) + ins(0x61, 3, 6, 4)            # r2 = data, r3 = data_end
+    p += ins(0xbf, 4, 2) + ins(0x07, 4, 0, 0, need)         # r4 = data + need
+    body = b"".join([
+        ins(0x71, 5, 2, 3), ins(0x7b, 7, 5, 0),             # u8  at 3
+        ins(0x69, 5, 2, 4), ins(0x7b, 7, 5, 8),             # u16 at 4
+        ins(0x61, 5, 2, 8), ins(0x7b, 7, 5, 16),            # u32 at 8
+        ins(0x79, 5, 2, need - 8), ins(0x7b, 7, 5, 24),     # u64 at the end of the guarded range
+        ins(0x72, 2, 0, 1, 0xab), ins(0x6a, 2, 0, 6, 0x1234),   # packet writes
+        ins(0xb7, 0, 0, 0, 2), ins(0x95)])
+    p += ins(0x2d, 4, 3, len(body) // 8, 0)                 # if r4 > r3 goto drop
+    return p + body + ins(0xb7, 0, 0, 0, 1) + ins(0x95)
+
+
+def hash_program(arr_fd, hash_fd):
+    """key = first 2 map bytes; update(flag from map) / lookup+modify / delete; return codes to the map"""
+    p = _lookup_arr(arr_fd)
+    p += ins(0x69, 1, 7, 0) + ins(0x6b, 10, 1, -8)          # key (u16) -> stack -8
+    p += ins(0x79, 1, 7, 8) + ins(0x7b, 10, 1, -24)         # value (u64) -> stack -24
+    call = lambda f: ins(0x18, 1, 1, 0, hash_fd) + ins(0, 0, 0, 0, 0) + ins(0xbf, 2, 10) + ins(0x07, 2, 0, 0, -8) + f
+    p += call(ins(0xbf, 3, 10) + ins(0x07, 3, 0, 0, -24) + ins(0x79, 4, 7, 16) + ins(0x85, 0, 0, 0, 2))
+    p += ins(0x7b, 7, 0, 32)                                # update result
+    p += call(ins(0x85, 0, 0, 0, 1))                        # lookup
+    p += ins(0x15, 0, 0, 4, 0)                              # if r0 == 0 skip modification
+    p += ins(0x79, 1, 0, 0) + ins(0x7b, 7, 1, 40)           # read value through the pointer
+    p += ins(0x07, 1, 0, 0, 5) + ins(0x7b, 0, 1, 0)         # value += 5 through the pointer
+    p += ins(0x79, 1, 7, 24) + ins(0x15, 1, 0, 6, 0)        # delete only if map[24] != 0 (skip 5 + 1 slots)
+    p += call(ins(0x85, 0, 0, 0, 3)) + ins(0x7b, 7, 0, 48)  # delete result
+    return p + ins(0xb7, 0, 0, 0, 2) + ins(0x95)
+
+
+def tail_programs(arr_fd, prog_fd):
+    main = _lookup_arr(arr_fd)
+    main += ins(0x61, 3, 7, 0)                              # r3 = index from map
+    main += ins(0x62, 7, 0, 8, 0x11)                        # marker: main ran
+    main += ins(0xbf, 1, 6) + ins(0x18, 2, 1, 0, prog_fd) + ins(0, 0, 0, 0, 0) + ins(0x85, 0, 0, 0, 12)
+    main += ins(0x62, 7, 0, 12, 0x22)                       # marker: fell through
+    main += ins(0xb7, 0, 0, 0, 2) + ins(0x95)
+    callee = _lookup_arr(arr_fd) + ins(0x62, 7, 0, 16, 0x33) + ins(0xb7, 0, 0, 0, 3) + ins(0x95)
+    return main, callee
+
+
+def _renumber(code, mapping):
+    insns = bpfdecode.split(code)
+    for i in insns:
+        if i["op"] == 0x18 and i["src"] == 1:
+            i["imm"] = list(mapping[int.from_bytes(bytes(i["imm"]), "little")].to_bytes(4, "little"))
+    return insns
+
+
+def targeted(workers=4, verbose=True):
+    if not kernel.available():
+        print("kernel bpf() not available: targeted fidelity skipped")
+        return None
+    rng = random.Random(7)
+    cases, want, labels = [], [], []
+    arr = kernel.map_create(2, 4, 64, 1)
+    # 1. packet access around the guard
+    need = 24
+    code = packet_program(arr, need)
+    pfd = kernel.prog_load(code)
+    for ln in (14, 15, 23, 24, 25, 32, 64):
+        pkt = bytes(rng.getrandbits(8) for _ in range(ln))
+        kernel.map_update(arr, bytes(4), bytes(64))
+        rv, out = kernel.test_run(pfd, pkt)
+        cases.append(dict(programs=[_renumber(code, {arr: 1})], entry=1, maps=[dict(type="array", ks=4, vs=64, max=1)],
+                          progs=[[]], orc=[], pkt=list(pkt), arr=[dict(fd=1, bytes=[0] * 64)], hash=[], fuel=500))
+        want.append(dict(rv=rv, arr=kernel.map_lookup(arr, bytes(4), 64), pkt=out, hash=None))
+        labels.append(f"packet len {ln} guard {need}")
+    os.close(pfd)
+    # 2. hash helpers: absent/present key x flags ANY/NOEXIST/EXIST x delete or not
+    for present in (False, True):
+        for flag in (0, 1, 2):
+            for dele in (0, 1):
+                h = kernel.map_create(1, 2, 8, 2)
+                code = hash_program(arr, h)
+                pfd = kernel.prog_load(code)
+                key = bytes([0x34, 0x12])
+                init = key + bytes(6) + struct.pack("<QQQ", 1000, flag, dele) + bytes(32)
+                kernel.map_update(arr, bytes(4), init)
+                pre = []
+                if present:
+                    kernel.map_update(h, key, struct.pack("<Q", 77))
+                    pre = [dict(fd=2, key=list(key), val=list(struct.pack("<Q", 77)))]
+                rv, out = kernel.test_run(pfd, bytes(64))
+                hv = kernel.map_lookup(h, key, 8)
+                cases.append(dict(programs=[_renumber(code, {arr: 1, h: 2})], entry=1,
+                                  maps=[dict(type="array", ks=4, vs=64, max=1), dict(type="hash", ks=2, vs=8, max=2)],
+                                  progs=[[], []], orc=[], pkt=[0] * 64, arr=[dict(fd=1, bytes=list(init))],
+                                  hash=pre, fuel=500))
+                want.append(dict(rv=rv, arr=kernel.map_lookup(arr, bytes(4), 64), pkt=out,
+                                 hash=[] if hv is None else [[2, list(key), list(hv)]]))
+                labels.append(f"hash present={present} flag={flag} delete={dele}")
+                os.close(pfd)
+                os.close(h)
+    # 3. tail calls: registered index, empty index, out-of-range index
+    pa = kernel.map_create(3, 4, 4, 8)
+    main, callee = tail_programs(arr, pa)
+    cfd = kernel.prog_load(callee)
+    kernel.map_update(pa, struct.pack("<I", 3), struct.pack("<I", cfd))
+    mfd = kernel.prog_load(main)
+    for idx in (3, 2, 8, 0xffffffff):
+        init = struct.pack("<I", idx) + bytes(60)
+        kernel.map_update(arr, bytes(4), init)
+        rv, out = kernel.test_run(mfd, bytes(64))
+        cases.append(dict(programs=[_renumber(main, {arr: 1, pa: 2}), _renumber(callee, {arr: 1, pa: 2})], entry=1,
+                          maps=[dict(type="array", ks=4, vs=64, max=1), dict(type="prog", ks=4, vs=4, max=8)],
+                          progs=[[], [0, 0, 0, 2, 0, 0, 0, 0]], orc=[], pkt=[0] * 64,
+                          arr=[dict(fd=1, bytes=list(init))], hash=[], fuel=500))
+        want.append(dict(rv=rv, arr=kernel.map_lookup(arr, bytes(4), 64), pkt=out, hash=None))
+        labels.append(f"tail call index {idx}")
+    for fd in (mfd, cfd, pa, arr):
+        os.close(fd)
+    wd = T.workdir("fidtarget")
+    T.stage(wd)
+    path = os.path.join(wd, "cases.json")
+    json.dump(cases, open(path, "w"))
+    res = T.run(wd, "EbpfRun", "EbpfRun.cfg", workers=workers, timeout=600, deadlock=False, env={"TRACE_FILE": path})
+    T.cleanup(wd)
+    if res.error:
+        raise T.MachineryError("EbpfRun failed:\n" + res.error[:3000])
+    got = {r[0]: r[1] for r in T.printed_records(res, "RUN")}
+    bad = []
+    for k, (w, lab) in enumerate(zip(want, labels), 1):
+        r = got.get(k)
+        why = []
+        if r is None:
+            why.append("no result")
+        else:
+            if r["st"] != ["exit"]:
+                why.append(f"machine status {r['st']}")
+            elif int.from_bytes(bytes(r["r0"]), "little") != w["rv"]:
+                why.append(f"r0 machine {int.from_bytes(bytes(r['r0']), 'little')} kernel {w['rv']}")
+            if bytes(r["arr"][0]) != w["arr"]:
+                why.append(f"map machine {bytes(r['arr'][0]).hex()} kernel {w['arr'].hex()}")
+            if bytes(r["pkt"]) != w["pkt"]:
+                why.append("packet differs")
+            if w["hash"] is not None and sorted(r["hash"]) != sorted(w["hash"]):
+                why.append(f"hash machine {r['hash']} kernel {w['hash']}")
+        if why:
+            bad.append((lab, why))
+        if verbose:
+            print(("MISMATCH " if why else "ok       ") + lab + ("  kernel r0=%d" % w["rv"]) + ("  " + "; ".join(why) if why else ""))
+    if verbose:
+        print(f"targeted fidelity: {len(cases)} cases, mismatches {len(bad)}")
+    return dict(cases=len(cases), mismatches=bad)
